@@ -100,9 +100,10 @@ type CallPlan struct {
 	HProg          []HOp
 	HErr           *ErrPlan // returned at the end of HProg (nil: success)
 	HPanic         *PanicPlan
-	KeepReceiving  bool // bidi handler: keep calling Receive after a non-EOF error
-	InterceptorErr bool // the plan's error is returned by the outermost handler interceptor, user code never runs
-	CloseTwice     bool // server-stream client calls Close twice
+	KeepReceiving  bool   // bidi handler: keep calling Receive after a non-EOF error
+	ReuseRequestOf string // unary: send the very connect.Request object of that earlier call again
+	InterceptorErr bool   // the plan's error is returned by the outermost handler interceptor, user code never runs
+	CloseTwice     bool   // server-stream client calls Close twice
 	panicAfterCtx  bool
 	ReturnSendErr  bool     // the handler returns the error of a failed Send (as handlers do)
 	RecoverErr     *ErrPlan // what the WithRecover function returns
